@@ -69,7 +69,12 @@ theorem goto_cached (c : ECfg S) : ∀ (fuel : Nat) (spec : String) (l : Live S.
   | succ fuel ih =>
     intro spec l
     have hbody : ∀ pid l, OutCached (gotoBody c (goto c fuel) pid l) := by
-      intro pid l; unfold gotoBody; exact gotoLoop_cached c _ ih _ _ _ _ _ _
+      intro pid l; unfold gotoBody
+      have hl := gotoLoop_cached c _ ih (c.story.passages.length + 1) [] pid [] [] l
+      intro o ho
+      rw [keepCurOnError_snd] at ho
+      rw [keepCurOnError_out]
+      exact hl o ho
     unfold goto
     split
     · intro o h; simp at h
